@@ -177,4 +177,272 @@ theorem c10_fit_fresh (hL : Lawful U evalF derivF) (ops : POps K n p s LLS) (nm 
   exact (build_coherent (s := s) x o hL stF Y w eps).1.symm
 
 end e2e
+
+section c06
+variable {K E : Type} {n m p s : Nat} {U : UserModel n m p K E}
+variable [Add K] [Sub K] [Mul K] [Div K] [Neg K] [Zero K] [One K] [LT K] [LE K]
+  [DecidableLT K] [DecidableLE K] [DecidableEq K]
+variable {LLS : Type}
+variable (x : Ext K) (o : XOps K)
+variable {evalF : Vector K p → Except E (Mat n m K)}
+variable {derivF : Vector K p → Fin p → Except E (Mat n m K)}
+
+/-- scale the rows of a successfully evaluated matrix -/
+def scaleE (w : Vector K n) : Except E (Mat n m K) → Except E (Mat n m K)
+  | .error e => .error e
+  | .ok A => .ok (Mat.rowScale w A)
+
+/-- the model whose basis functions and derivatives have row `i` multiplied by `w_i` -/
+def UserModel.rowScaled (U : UserModel n m p K E) (w : Vector K n) : UserModel n m p K E where
+  State := U.State
+  setParams := U.setParams
+  params := U.params
+  eval st := ((U.eval st).1, scaleE w (U.eval st).2)
+  deriv st k := ((U.deriv st k).1, scaleE w (U.deriv st k).2)
+
+theorem rowScaled_lawful (hL : Lawful U evalF derivF) (w : Vector K n) :
+    Lawful (U.rowScaled w) (fun α => scaleE w (evalF α)) (fun α k => scaleE w (derivF α k)) where
+  set_ok := hL.set_ok
+  set_params := hL.set_params
+  eval_val st := congrArg (scaleE w) (hL.eval_val (st : U.State))
+  eval_params := hL.eval_params
+  deriv_val st k := congrArg (scaleE w) (hL.deriv_val (st : U.State) k)
+  deriv_params := hL.deriv_params
+
+theorem derivList_scaled (w : Vector K n) (α : Vector K p) (ks : List (Fin p)) :
+    derivList (fun α k => scaleE w (derivF α k)) α ks =
+      (derivList derivF α ks).map (List.map fun kd => (kd.1, Mat.rowScale w kd.2)) := by
+  induction ks with
+  | nil => rfl
+  | cons k rest ih =>
+    simp only [derivList]
+    rw [ih]
+    cases derivF α k with
+    | error e => rfl
+    | ok D =>
+      simp only [scaleE]
+      cases derivList derivF α rest <;> rfl
+
+theorem blockOf_scaled (w : Vector K n) (c : Cache n m s K) (ds : List (Fin p × Mat n m K)) (k : Fin p) :
+    blockOf none c (ds.map fun kd => (kd.1, Mat.rowScale w kd.2)) k = blockOf (some w) c ds k := by
+  unfold blockOf
+  induction ds with
+  | nil => rfl
+  | cons d rest ih =>
+    simp only [List.map_cons, List.find?_cons]
+    by_cases hk : d.1 = k
+    · simp only [hk, decide_true]; rfl
+    · simp only [hk, decide_false]; exact ih
+
+theorem cacheOf_scaled (w : Vector K n) (Y : Mat n s K) (eps : K) (α : Vector K p) :
+    cacheOf x o (wmul (some w) Y) eps (some w) evalF α =
+      cacheOf x o (wmul none (Mat.rowScale w Y)) eps none (fun α => scaleE w (evalF α)) α := by
+  have e1 : wmul (some w) Y = wmul none (Mat.rowScale w Y) := rfl
+  have e2 : ∀ Phi : Mat n m K, wmul (some w) Phi = wmul none (Mat.rowScale w Phi) := fun _ => rfl
+  unfold cacheOf
+  rw [e1]
+  beta_reduce
+  cases evalF α with
+  | error e => rfl
+  | ok Phi => simp only [scaleE, e2]
+
+theorem jacOf_scaled (w : Vector K n) (α : Vector K p) (c : Cache n m s K) :
+    jacOf (some w) derivF α c = jacOf none (fun α k => scaleE w (derivF α k)) α c := by
+  unfold jacOf
+  rw [derivList_scaled]
+  cases derivList derivF α (List.finRange p) with
+  | none => simp only [Option.map_none]
+  | some ds =>
+    simp only [Option.map_some]
+    have hb : blockOf (some w) c ds = blockOf none c (ds.map fun kd => (kd.1, Mat.rowScale w kd.2)) :=
+      funext fun k => (blockOf_scaled w c ds k).symm
+    rw [hb]
+
+/-- the weighted problem and the row-scaled unweighted problem have literally the same
+specification -/
+theorem spec_weighted_eq_scaled (w : Vector K n) (Y : Mat n s K) (eps : K) :
+    specLSP x o (wmul (some w) Y) eps (some w) evalF derivF =
+      specLSP x o (wmul none (Mat.rowScale w Y)) eps none
+        (fun α => scaleE w (evalF α)) (fun α k => scaleE w (derivF α k)) := by
+  have h1 : (specLSP x o (wmul (some w) Y) eps (some w) evalF derivF).setParams =
+      (specLSP x o (wmul none (Mat.rowScale w Y)) eps none
+        (fun α => scaleE w (evalF α)) (fun α k => scaleE w (derivF α k))).setParams := by
+    funext a α
+    show ({ alpha := α, cached := _ } : SpecSt n m p s K) = { alpha := α, cached := _ }
+    rw [cacheOf_scaled]
+  have h2 : (specLSP x o (wmul (some w) Y) eps (some w) evalF derivF).jacobian =
+      (specLSP x o (wmul none (Mat.rowScale w Y)) eps none
+        (fun α => scaleE w (evalF α)) (fun α k => scaleE w (derivF α k))).jacobian := by
+    funext a
+    have hj : (jacOf (some w) derivF a.alpha : Cache n m s K → Option (Mat (n * s) p K)) =
+        jacOf none (fun α k => scaleE w (derivF α k)) a.alpha :=
+      funext fun c => jacOf_scaled w a.alpha c
+    show (a, a.cached.bind (jacOf (some w) derivF a.alpha)) = (a, a.cached.bind _)
+    rw [hj]
+  cases hA : specLSP x o (wmul (some w) Y) eps (some w) evalF derivF with
+  | mk sA pA rA jA =>
+    cases hB : specLSP x o (wmul none (Mat.rowScale w Y)) eps none
+        (fun α => scaleE w (evalF α)) (fun α k => scaleE w (derivF α k)) with
+    | mk sB pB rB jB =>
+      rw [hA, hB] at h1 h2
+      simp only at h1 h2
+      have h3 : pA = pB := by
+        have ea := congrArg LSP.params hA; have eb := congrArg LSP.params hB
+        simp only at ea eb
+        rw [← ea, ← eb]; rfl
+      have h4 : rA = rB := by
+        have ea := congrArg LSP.residuals hA; have eb := congrArg LSP.residuals hB
+        simp only at ea eb
+        rw [← ea, ← eb]; rfl
+      rw [h1, h2, h3, h4]
+
+/-- **c06_fit_equiv**: for a model honouring the trait contract, the whole fit of the problem with
+diagonal weights `w` and the whole fit of the unweighted problem whose basis functions, derivatives
+and observations have each row `i` multiplied by `w_i` give the same decision, the same report
+(termination, evaluations, objective) and the same final parameters, coefficients, residuals and
+decomposition – for every behaviour of the optimizer's numerical routines. -/
+theorem c06_fit_equiv (hL : Lawful U evalF derivF) (ops : POps K n p s LLS) (nm : Num K) (cfg : Config K)
+    (w : Vector K n) (Y : Mat n s K) (eps : K) (st0 : U.State) :
+    fitObs Problem.abs (fit (problemLSP x o) ops nm cfg
+        (Problem.build x o st0 Y (some w) eps : Problem U s)) =
+      fitObs Problem.abs (fit (problemLSP x o) ops nm cfg
+        (Problem.build x o st0 (Mat.rowScale w Y) none eps : Problem (U.rowScaled w) s)) := by
+  have hL' := rowScaled_lawful hL w
+  rw [fit_seq_spec x o hL, fit_seq_spec x o hL']
+  have fixA : (Problem.build x o st0 Y (some w) eps : Problem U s).Yw = wmul (some w) Y ∧
+      (Problem.build x o st0 Y (some w) eps : Problem U s).eps = eps ∧
+      (Problem.build x o st0 Y (some w) eps : Problem U s).w = some w := by
+    unfold Problem.build; exact setParams_fixed x o _ _
+  have fixB : (Problem.build x o st0 (Mat.rowScale w Y) none eps : Problem (U.rowScaled w) s).Yw
+        = wmul none (Mat.rowScale w Y) ∧
+      (Problem.build x o st0 (Mat.rowScale w Y) none eps : Problem (U.rowScaled w) s).eps = eps ∧
+      (Problem.build x o st0 (Mat.rowScale w Y) none eps : Problem (U.rowScaled w) s).w = none := by
+    unfold Problem.build; exact setParams_fixed x o _ _
+  rw [fixA.1, fixA.2.1, fixA.2.2, fixB.1, fixB.2.1, fixB.2.2, spec_weighted_eq_scaled]
+  have habs : (Problem.build x o st0 Y (some w) eps : Problem U s).abs =
+      (Problem.build x o st0 (Mat.rowScale w Y) none eps : Problem (U.rowScaled w) s).abs := by
+    obtain ⟨a1, a2⟩ := build_coherent (s := s) x o hL st0 Y (some w) eps
+    obtain ⟨b1, b2⟩ := build_coherent (s := s) x o hL' st0 (Mat.rowScale w Y) none eps
+    unfold Problem.abs
+    rw [a1, a2, b1, b2]
+    congr 1
+    exact cacheOf_scaled x o w Y eps (U.params st0)
+  rw [habs]
+
+end c06
+
+section field
+variable {K E : Type} [Field K] [LinearOrder K] [IsStrictOrderedRing K] {n m p s : Nat}
+variable {U : UserModel n m p K E} {LLS : Type}
+variable (x : Ext K) (o : XOps K)
+variable {evalF : Vector K p → Except E (Mat n m K)}
+variable {derivF : Vector K p → Fin p → Except E (Mat n m K)}
+
+/-- the optimizer's report on the real problem is its report on the specification -/
+theorem minimize_report_spec (hL : Lawful U evalF derivF) (ops : POps K n p s LLS) (nm : Num K)
+    (cfg : Config K) (P : Problem U s) :
+    (minimize (specLSP x o P.Yw P.eps P.w evalF derivF) ops nm cfg P.abs).2 =
+      (minimize (problemLSP x o) ops nm cfg P).2 ∧
+    (minimize (specLSP x o P.Yw P.eps P.w evalF derivF) ops nm cfg P.abs).1 =
+      (minimize (problemLSP x o) ops nm cfg P).1.abs := by
+  let t : { Q : Problem U s // Fixed P.Yw P.eps P.w Q } := ⟨P, rfl, rfl, rfl⟩
+  have hv := minimize_hom (subLSP_hom (problemLSP (U := U) (s := s) x o) (Fixed P.Yw P.eps P.w)
+    (preserved_seq x o P.Yw P.eps P.w)) ops nm cfg t
+  have ha := minimize_hom (abs_hom_seq (evalF := evalF) (derivF := derivF) x o P.Yw P.eps P.w hL) ops nm cfg t
+  have hv' : minimize (problemLSP x o) ops nm cfg P = _ := hv
+  have ha' : minimize (specLSP x o P.Yw P.eps P.w evalF derivF) ops nm cfg P.abs = _ := ha
+  rw [hv', ha']
+  exact ⟨rfl, rfl⟩
+
+/-- the residuals the specification exposes at `α` -/
+def specResiduals (Yw : Mat n s K) (eps : K) (w : Option (Vector K n))
+    (evalF : Vector K p → Except E (Mat n m K)) (α : Vector K p) : Option (Vector K (n * s)) :=
+  (cacheOf x o Yw eps w evalF α).map fun c => c.residuals.vec
+
+theorem spec_laws (Yw : Mat n s K) (eps : K) (w : Option (Vector K n)) :
+    LSPLaws (specLSP x o Yw eps w evalF derivF) (specResiduals x o Yw eps w evalF) :=
+  ⟨fun _ _ => rfl, fun _ _ => rfl, fun _ => rfl, fun _ => rfl⟩
+
+/-- **c04_e2e**: a successful `fit` of varpro's problem, end to end.  For a model honouring the trait
+contract, every behaviour of the optimizer's numerical routines, every SVD routine, all shapes: if
+`fit` returns `Ok(result)` for a problem whose cache belonged to its parameters (any built problem),
+then at the reported parameters `α̂` the model evaluates to some `Φ`, and the result carries
+coefficients `Ĉ` that are the truncated least-squares solution for `W·Φ(α̂)` against this problem's
+weighted data (so every clause of C01 applies to them), residuals `= W∘Y − (W·Φ(α̂))·Ĉ`, a reported
+objective `= ½‖residuals‖²` which is not above the objective at the initial guess, and an evaluation
+count within the budget `patience·(P+1)`. -/
+theorem c04_e2e (hL : Lawful U evalF derivF) (ops : POps K n p s LLS) (nm : Num K) (cfg : Config K)
+    (hl : NumLaws ops nm) (P : Problem U s)
+    (h0 : P.cached = cacheOf x o P.Yw P.eps P.w evalF P.params)
+    (r : FitResult (Problem U s) K) (hfit : fit (problemLSP x o) ops nm cfg P = .ok r) :
+    ∃ Phi c, evalF r.problem.params = .ok Phi ∧ r.problem.cached = some c ∧
+      0 ≤ P.eps ∧
+      c.coeff = solveTruncVal (x.svd n m (wmul P.w Phi)) P.Yw P.eps ∧
+      c.residuals = P.Yw.sub ((wmul P.w Phi).mul c.coeff) ∧
+      r.report.objective = some (ops.enormR c.residuals.vec * ops.enormR c.residuals.vec * nm.half) ∧
+      (∀ r0, P.residuals = some r0 → ∀ v, r.report.objective = some v →
+          v ≤ ops.enormR r0 * ops.enormR r0 * nm.half) ∧
+      r.report.evaluations ≤ max (cfg.patience * (ops.lenX P.params + 1)) 2 := by
+  -- what `Ok` means
+  have hdec := c04_ok_iff (problemLSP (U := U) (s := s) x o) ops nm cfg P
+  simp only at hdec
+  set mr := minimize (problemLSP (U := U) (s := s) x o) ops nm cfg P with hmr
+  set rep := finalReport (problemLSP (U := U) (s := s) x o) mr.1 mr.2 with hrep
+  have hsucc : rep.termination.wasSuccessful = true := by
+    cases hb : rep.termination.wasSuccessful with
+    | true => rfl
+    | false => rw [hdec.2 hb] at hfit; cases hfit
+  have hr : r = { problem := mr.1, report := rep } := by
+    rw [hdec.1 hsucc] at hfit; exact (Except.ok.inj hfit).symm
+  subst hr
+  obtain ⟨hev, hobj, hpres, _, hsome⟩ := c04_report (problemLSP (U := U) (s := s) x o) mr.1 mr.2
+  have hres : ((problemLSP (U := U) (s := s) x o).residuals mr.1).isSome = true := hsome hsucc
+  have hrepeq : rep = mr.2 := hpres hres
+  -- the final cache belongs to the final parameters
+  have hcache := c04_final_cache x o hL ops nm cfg P h0
+  rw [← hmr] at hcache
+  cases hc : mr.1.cached with
+  | none =>
+    have : (problemLSP (U := U) (s := s) x o).residuals mr.1 = none := by
+      show mr.1.residuals = none
+      simp [Problem.residuals, hc]
+    rw [this] at hres; cases hres
+  | some c =>
+    rw [hc] at hcache
+    unfold cacheOf at hcache
+    cases hPhi : evalF mr.1.params with
+    | error e => rw [hPhi] at hcache; cases hcache
+    | ok Phi =>
+      rw [hPhi] at hcache
+      obtain ⟨heps, _, hcoef, hresid⟩ := computeCache_some x o P.Yw P.eps (wmul P.w Phi) c hcache.symm
+      refine ⟨Phi, c, rfl, rfl, heps, hcoef, hresid, ?_, ?_, ?_⟩
+      · -- objective: through the specification
+        obtain ⟨hrs, hps⟩ := minimize_report_spec (evalF := evalF) (derivF := derivF) x o hL ops nm cfg P
+        rw [← hmr] at hrs hps
+        have hs' : (minimize (specLSP x o P.Yw P.eps P.w evalF derivF) ops nm cfg P.abs).2.termination.wasSuccessful = true := by
+          rw [hrs, ← hrepeq]; exact hsucc
+        have hinit : (specLSP x o P.Yw P.eps P.w evalF derivF).residuals P.abs =
+            specResiduals x o P.Yw P.eps P.w evalF ((specLSP x o P.Yw P.eps P.w evalF derivF).params P.abs) := by
+          show P.cached.map _ = (cacheOf x o P.Yw P.eps P.w evalF P.params).map _
+          rw [h0]
+        obtain ⟨rr, h1, _, h3⟩ := c04_coherent (specLSP x o P.Yw P.eps P.w evalF derivF) ops nm cfg
+          (specResiduals x o P.Yw P.eps P.w evalF) (spec_laws (derivF := derivF) x o P.Yw P.eps P.w)
+          P.abs hinit hs'
+        rw [hps] at h1
+        have hrr : rr = c.residuals.vec := by
+          have : (specLSP x o P.Yw P.eps P.w evalF derivF).residuals mr.1.abs = some c.residuals.vec := by
+            show mr.1.cached.map _ = _
+            rw [hc]; rfl
+          rw [this] at h1
+          exact (Option.some.inj h1).symm
+        show rep.objective = _
+        rw [hrepeq, ← hrs, h3, hrr]
+      · intro r0 hr0 v hv
+        have hv' : mr.2.objective = some v := by rw [← hrepeq]; exact hv
+        exact c04_monotone (problemLSP (U := U) (s := s) x o) ops nm cfg hl P r0 hr0 v (by rw [← hmr]; exact hv')
+      · show rep.evaluations ≤ _
+        rw [hev]
+        exact (c04_budget (problemLSP (U := U) (s := s) x o) ops nm cfg P).2
+
+end field
 end Varpro
